@@ -124,6 +124,10 @@ Qed.
 Definition pf0 (s : list byte) : option Z :=
   if bytes_eqb s [x32; x2e; x35] then Some 4612811918334230528                 (* "2.5" *)
   else if bytes_eqb s [x2d; x31; x2e; x35] then Some 13832806255468478464        (* "-1.5" *)
+  else if bytes_eqb s [x31; x2e; x35; x65; x33] then Some 4654311885213007872    (* "1.5e3" *)
+  else if bytes_eqb s [x31; x65; x31; x36] then Some 4846369599423283200         (* "1e16" *)
+  else if bytes_eqb s [x31; x65; x2d; x31; x36] then Some 4367597403136100796    (* "1e-16" *)
+  else if bytes_eqb s [x2d; x31; x65; x2d; x32] then Some 13800290266158863483   (* "-1e-2" *)
   else None.
 
 (* F-14g: a map literal inside a list literal, inside a map literal, behind a typedef, as a struct-literal member *)
@@ -249,6 +253,35 @@ Example double_sign_run_cases :
     pclass_top (mkLS [] []) (LFloat [x2d; x2b; x31; x2e; x35]) (item_cty RF64) = Some PCFloatSigns.
 Proof. vm_compute. repeat split; reflexivity. Qed.
 
+(* double-exponent-form: the exponent of a double constant is an IDL integer constant.  The meaning, whatever the source:
+   1.5e--3 = 1.5e3, 1e0x10 = 1e16, 1E-0x10 = 1e-16, -1e---2 = -1e-2; an exponent f64::from_str understands is left alone *)
+Example exp_norm_cases :
+  exp_norm [x31; x2e; x35; x65; x2d; x2d; x33] = [x31; x2e; x35; x65; x33] /\
+  exp_norm [x31; x65; x30; x78; x31; x30] = [x31; x65; x31; x36] /\
+  exp_norm [x31; x45; x2d; x30; x78; x31; x30] = [x31; x65; x2d; x31; x36] /\
+  exp_norm [x2d; x31; x65; x2d; x2d; x2d; x32] = [x2d; x31; x65; x2d; x32] /\
+  exp_norm [x31; x65; x2d; x35] = [x31; x65; x2d; x35] /\
+  exp_norm [x31; x2e; x35; x45; x30; x35] = [x31; x2e; x35; x45; x30; x35] /\
+  exp_norm [x32; x2e; x35] = [x32; x2e; x35].
+Proof. vm_compute. repeat split; reflexivity. Qed.
+
+Example double_exponent_cases :
+  well_typed_lit pf0 (mkLS [] []) TyDouble (LFloat [x31; x2e; x35; x65; x2d; x2d; x33]) = true /\
+  lit_value_top pf0 (mkLS [] []) TyDouble (LFloat [x31; x2e; x35; x65; x2d; x2d; x33]) = Some (GDouble 4654311885213007872) /\
+  lit_value_top pf0 (mkLS [] []) TyDouble (LFloat [x31; x65; x30; x78; x31; x30]) = Some (GDouble 4846369599423283200) /\
+  if double_exponent_ok then
+    default_val_lit pf0 (mkLS [] []) RF64 (LFloat [x31; x2e; x35; x65; x2d; x2d; x33]) = LOk (GDouble 4654311885213007872, true) /\
+    default_val_lit pf0 (mkLS [] []) RF64 (LFloat [x31; x65; x30; x78; x31; x30]) = LOk (GDouble 4846369599423283200, true) /\
+    default_val_lit pf0 (mkLS [] []) RF64 (LFloat [x31; x45; x2d; x30; x78; x31; x30]) = LOk (GDouble 4367597403136100796, true) /\
+    default_val_lit pf0 (mkLS [] []) (RSet ROrderedF64) (LList [LFloat [x2d; x31; x65; x2d; x2d; x2d; x32]]) = LOk (GSet [GDouble 13800290266158863483], false) /\
+    pclass_top (mkLS [] []) (LFloat [x31; x2e; x35; x65; x2d; x2d; x33]) (item_cty RF64) = None
+  else
+    default_val_lit pf0 (mkLS [] []) RF64 (LFloat [x31; x2e; x35; x65; x2d; x2d; x33]) = LPanic PParseFloat /\
+    default_val_lit pf0 (mkLS [] []) RF64 (LFloat [x31; x65; x30; x78; x31; x30]) = LPanic PParseFloat /\
+    pclass_top (mkLS [] []) (LFloat [x31; x2e; x35; x65; x2d; x2d; x33]) (item_cty RF64) = Some PCFloatExp /\
+    pclass_top (mkLS [] []) (LFloat [x31; x65; x30; x78; x31; x30]) (item_cty RF64) = Some PCFloatExp.
+Proof. vm_compute. repeat split; reflexivity. Qed.
+
 (* the two readings of each case, as implications (one of each pair is vacuous in a given tree) *)
 Lemma arc_field_default_refuted : arc_ok = false ->
   well_typed_lit pf0 W_arc (erase (RArc (RPath 0))) (LMap [(LString [x6e], LInt 1)]) = true /\
@@ -297,6 +330,24 @@ Lemma double_sign_run_repaired : double_sign_run_ok = true ->
   default_val_lit pf0 (mkLS [] []) (RSet ROrderedF64) (LList [LFloat [x2d; x2b; x31; x2e; x35]]) = LOk (GSet [GDouble 13832806255468478464], false) /\
   pclass_top (mkLS [] []) (LFloat [x2d; x2b; x31; x2e; x35]) (item_cty RF64) = None.
 Proof. intros H. pose proof double_sign_run_cases as E. rewrite H in E. exact (proj2 E). Qed.
+
+Lemma double_exponent_refuted : double_exponent_ok = false ->
+  well_typed_lit pf0 (mkLS [] []) TyDouble (LFloat [x31; x2e; x35; x65; x2d; x2d; x33]) = true /\
+  default_val_lit pf0 (mkLS [] []) RF64 (LFloat [x31; x2e; x35; x65; x2d; x2d; x33]) = LPanic PParseFloat /\
+  default_val_lit pf0 (mkLS [] []) RF64 (LFloat [x31; x65; x30; x78; x31; x30]) = LPanic PParseFloat /\
+  pclass_top (mkLS [] []) (LFloat [x31; x2e; x35; x65; x2d; x2d; x33]) (item_cty RF64) = Some PCFloatExp /\
+  pclass_top (mkLS [] []) (LFloat [x31; x65; x30; x78; x31; x30]) (item_cty RF64) = Some PCFloatExp.
+Proof.
+  intros H. pose proof double_exponent_cases as E. rewrite H in E. exact (conj (proj1 E) (proj2 (proj2 (proj2 E)))).
+Qed.
+
+Lemma double_exponent_repaired : double_exponent_ok = true ->
+  default_val_lit pf0 (mkLS [] []) RF64 (LFloat [x31; x2e; x35; x65; x2d; x2d; x33]) = LOk (GDouble 4654311885213007872, true) /\
+  default_val_lit pf0 (mkLS [] []) RF64 (LFloat [x31; x65; x30; x78; x31; x30]) = LOk (GDouble 4846369599423283200, true) /\
+  default_val_lit pf0 (mkLS [] []) RF64 (LFloat [x31; x45; x2d; x30; x78; x31; x30]) = LOk (GDouble 4367597403136100796, true) /\
+  default_val_lit pf0 (mkLS [] []) (RSet ROrderedF64) (LList [LFloat [x2d; x31; x65; x2d; x2d; x2d; x32]]) = LOk (GSet [GDouble 13800290266158863483], false) /\
+  pclass_top (mkLS [] []) (LFloat [x31; x2e; x35; x65; x2d; x2d; x33]) (item_cty RF64) = None.
+Proof. intros H. pose proof double_exponent_cases as E. rewrite H in E. exact (proj2 (proj2 (proj2 E))). Qed.
 
 (* ---------- witnesses: what panics on a well-typed literal whatever the form, one per remaining class ---------- *)
 (* no arm: a string at `binary` with rust_type = "vec" *)
